@@ -201,6 +201,66 @@ def check(model: Model, run: Run) -> None:
     )
     _r8_fragment_kinds(model, run)
 
+    # ------------------------------------------------------------------ R9 rendering cannot fail on what the peer sent
+    run.rule(
+        'C13.R9',
+        'an event can always be rendered: the response encoders decode / encode peer bytes only with an error handler '
+        "(.decode('utf-8', 'replace')), never with a strict codec - a NOTIFICATION whose data is not UTF-8 must still give its "
+        'event (hex data plus a lossy text), not a UnicodeDecodeError out of Protocol.read_message',
+        floor=3,
+    )
+    from .common import implicit_raise_sites
+
+    n9 = 0
+    for fi in sorted(model.funcs.values(), key=lambda f: f.qualname):
+        if not fi.module.rel.startswith('exabgp/reactor/api/response/'):
+            continue
+        strict = {id(c): lab for c, lab in implicit_raise_sites(model, fi)}
+        for c in walk_no_nested(fi.node):
+            if isinstance(c, ast.Call) and isinstance(c.func, ast.Attribute) and c.func.attr in ('decode', 'encode'):
+                n9 += 1
+                run.check(
+                    id(c) not in strict,
+                    fi.qualname,
+                    'codec call %s has an error handler' % norm(c)[:50],
+                    fi.loc(c),
+                    'a strict codec raises %s for bytes the peer chose: the event is never written, and in the daemon the exception leaves '
+                    'Protocol.read_message and ends the session in the catch-all of Peer._run' % strict.get(id(c), 'UnicodeError'),
+                )
+        for c, lab in implicit_raise_sites(model, fi):
+            if not (isinstance(c.func, ast.Attribute) and c.func.attr in ('decode', 'encode')):
+                n9 += 1
+                run.violation(fi.qualname, 'strict conversion %s' % norm(c)[:50], fi.loc(c), 'raises %s for peer-chosen input while an event is rendered' % lab)
+    if n9 < 3:
+        run.cannot('only %d codec calls found in the response encoders' % n9)
+
+    # ------------------------------------------------------------------ R10 what is written bare is a JSON number
+    run.rule(
+        'C13.R10',
+        'a value written into JSON without quotes is a decimal number: where an emitter tries int(text) and writes the text bare when '
+        'that succeeds (json.dumps otherwise), the conversion is base 10 - with base 0 or 16 a text such as 0x000000000000000a (AIGP) '
+        'counts as a number and is written as a bare token no JSON parser accepts',
+        floor=1,
+    )
+    n10 = 0
+    for fi in sorted(model.funcs.values(), key=lambda f: f.qualname):
+        if not (fi.module.rel.startswith('exabgp/reactor/api/response/') or fi.module.rel.startswith('exabgp/bgp/message/')):
+            continue
+        for t in walk_no_nested(fi.node):
+            if not isinstance(t, ast.Try):
+                continue
+            dumps_in_handler = any(isinstance(c, ast.Call) and (dotted(c.func) or '').endswith('dumps') for h in t.handlers for c in ast.walk(h))
+            ints = [c for st in t.body for c in ast.walk(st) if isinstance(c, ast.Call) and isinstance(c.func, ast.Name) and c.func.id in ('int', 'float')]
+            if not dumps_in_handler or not ints:
+                continue
+            for c in ints:
+                n10 += 1
+                base = c.args[1] if len(c.args) > 1 else next((k.value for k in c.keywords if k.arg == 'base'), None)
+                okb = base is None or folder.fold(base, fi.module, fi.cls) == 10
+                run.check(okb, fi.qualname, 'the is-it-a-number test %s is decimal' % norm(c)[:40], fi.loc(c), 'with this base a text with a radix prefix passes the test and is emitted without quotes: "aigp": 0x000000000000000a is not JSON')
+    if n10 < 1:
+        run.cannot('no number-or-string emitter found (AttributeCollection._as_json_scalar)')
+
     # ------------------------------------------------------------------ R6 every event kind has an emitter
     run.rule('C13.R6', 'every message kind a peer can trigger has an emitter: each registered message type has a @register_process entry and each encoder class defines every method Processes calls on it', floor=20)
     _r6_emitters(model, run, folder)
